@@ -124,6 +124,11 @@ def binMeans (ss dims : List Nat) (v : List K) : List K :=
 def binWMean (s : Nat) (dims : List Nat) (v w : List K) : List K :=
   List.zipWith (· / ·) (binND s dims (List.zipWith (· * ·) v w)) (binND s dims w)
 
+/-- the weighted mean with one factor per axis (`subsample_field(field, array, new_grid, 'mean')` on a non-regular
+grid): `Σ_bin v·w / Σ_bin w`, whatever the size of the weights (no threshold below which weights "are equal") -/
+def binWMeans (ss dims : List Nat) (v w : List K) : List K :=
+  List.zipWith (· / ·) (binNDs ss dims (List.zipWith (· * ·) v w)) (binNDs ss dims w)
+
 end
 
 /-! ## Dithered supersampling (`evaluate_supersampled` on separated grids) -/
